@@ -221,7 +221,104 @@ def gen_two_gateway(rng: Rng) -> dict:
             "notes": {"routers": 2, "kinds": "router+router", "routing": "two-gateway-" + style, "two_gateway": True, "permit": "all"}}
 
 
+def add_inject(case: dict) -> dict:
+    """family `inject_low_ttl` (deterministic, draws nothing from the generator): crafted ICMP echo requests with TTL 3 / 2 / 1 handed
+    straight to an enabled, cabled (wired) router / firewall / wireless-router port (`RouterInterface.receive_frame`; model: `ifaceRecv`), from a host of that
+    port's LAN to (a) a host behind another gateway, (b) a host of the same LAN, (c) an unroutable address — so that
+    `Router.process_frame` / `route_frame` are exercised at the TTL boundary (decrement, `< 1` test, header rewrite, send) with the
+    caches as the case's operations left them (appended), and once before everything else with cold caches (TTL 2, remote
+    destination: the router's own ARP exchange nests inside `process_frame` of a frame that is about to die)."""
+    nodes = case["nodes"]
+    linked = set()
+    for a, i, b, j in case["links"] + case.get("air", []):
+        linked.add((a, i))
+        linked.add((b, j))
+    hosts = [(n, nd) for n, nd in enumerate(nodes) if nd["kind"] == "host"]
+    tail, head = [], []
+    for r, nd in enumerate(nodes):
+        if nd["kind"] not in ("router", "firewall", "wrouter"):
+            continue
+        found = None
+        for i, p in enumerate(nd["ports"]):
+            if p and (r, i) in linked:
+                hs = [h for h, hd in hosts if hd.get("gw") == p["ip"]]
+                if hs:
+                    found = (i, hs[0], p["ip"])
+                    break
+        if not found:
+            continue
+        i, h, gw = found
+        remote = [hd["ip"] for x, hd in hosts if x != h and hd.get("gw") != gw][:1]
+        local = [hd["ip"] for x, hd in hosts if x != h and hd.get("gw") == gw][:1]
+        for dst in remote + local + ["8.8.8.8"]:
+            for ttl in (3, 2, 1):
+                tail.append({"op": "inject", "node": r, "ifc": i, "from": h, "dst": dst, "ttl": ttl})
+        if remote and len(case["ops"]) % 2 == 0 and not head:
+            head.append({"op": "inject", "node": r, "ifc": i, "from": h, "dst": remote[0], "ttl": 2})
+    tail = tail[:18]
+    # echo requests handed to HOST NICs (`NIC.receive_frame`), layer-2 addressed to the arrival NIC: IP-addressed to that NIC, to the
+    # host's OTHER NIC (dual-homed hosts: accepted by the NIC, `_process_icmp_echo_request` must not answer: the destination is not
+    # the arrival interface's address), and to a foreign address (the NIC must not hand it to software at all)
+    htail = []
+    for h, hd in hosts:
+        others = [x for x, _ in hosts if x != h]
+        if not others:
+            continue
+        own = [hd["ip"]] + [x["ip"] for x in hd.get("extra", [])]
+        if len(own) < 2 and htail:
+            continue  # single-homed: one host per case is enough
+        for j in range(len(own)):
+            if (h, j) not in linked:
+                continue
+            for dst in own + [nodes[others[0]]["ip"]]:
+                htail.append({"op": "inject", "node": h, "ifc": j, "from": others[0], "dst": dst, "ttl": 64})
+            htail.append({"op": "inject", "node": h, "ifc": j, "from": others[0], "dst": own[j], "ttl": 1})
+    htail = htail[:12]
+    if tail or htail:
+        case["ops"] = head + case["ops"] + tail + htail
+        case.setdefault("notes", {})["inject"] = len(head) + len(tail) + len(htail)
+    return case
+
+
 def gen_case(rng: Rng, max_routers: int = 3) -> dict:
+    return add_inject(_gen_case(rng, max_routers))
+
+
+def gen_air_many(rng: Rng, k: int) -> dict:
+    """family `air_many` — IMPLEMENTATION ONLY (the Lean model has one peer per interface: an air space frequency shared by more than
+    two access points is outside it, see the design note): `k` >= 3 wireless routers on ONE frequency (`AirSpace.transmit` hands the
+    ONE frame object to every other enabled access point in registration order, depth-first), a wired LAN with a host behind each,
+    static routes or a default route to a hub; every ordered host pair is pinged cold and warm, one bystander access point is switched
+    off and on in between.  Judged by the property's oracle (a)-(d) on the real objects only: search, not proof."""
+    nodes, links = [], []
+    R = list(range(k))
+    hub = rng.choice(R)
+    use_default = rng.chance(1, 2)
+    for r in R:
+        if use_default and r != hub:
+            routes, default = [], f"10.0.0.{hub + 1}"
+        else:
+            routes = [{"addr": f"192.168.{10 + q}.0", "mask": "255.255.255.0", "nh": f"10.0.0.{q + 1}", "metric": 0} for q in R if q != r]
+            default = None
+        nodes.append({"kind": "wrouter", "ports": [{"ip": f"10.0.0.{r + 1}", "mask": "255.255.255.240"},
+                                                   {"ip": f"192.168.{10 + r}.1", "mask": "255.255.255.0"}],
+                      "routes": routes, "default": default, "flag": True})
+    for r in R:
+        nodes.append({"kind": "host", "ip": f"192.168.{10 + r}.2", "mask": "255.255.255.0", "gw": f"192.168.{10 + r}.1"})
+        links.append([k + r, 0, r, 1])
+    pings = [{"op": "ping", "src": k + a, "dst": f"192.168.{10 + b}.2", "count": rng.choice([1, 1, 2])} for a in R for b in R if a != b]
+    pings = rng.shuffle(pings)
+    by = rng.choice(R)
+    others = [p for p in pings if by not in (p["src"] - k, int(p["dst"].split(".")[2]) - 10)
+              and not (use_default and by == hub)]
+    ops = pings + [dict(p) for p in pings[:4]] + [{"op": "disable", "node": by, "ifc": 0}] + [dict(p) for p in others[:4]] \
+        + [{"op": "enable", "node": by, "ifc": 0}] + [dict(p) for p in pings[:3]]
+    return {"nodes": nodes, "links": links, "air": [[r, 0, r + 1, 0] for r in range(k - 1)], "ops": ops, "ping_permit": True,
+            "all_permit": True, "consistent": True, "icmp_ident_zero": False,
+            "notes": {"routers": k, "kinds": "+".join(["wrouter"] * k), "air_many": k, "routing": "default" if use_default else "static"}}
+
+
+def _gen_case(rng: Rng, max_routers: int = 3) -> dict:
     if rng.chance(1, 14):
         return gen_dmz_cross(rng)
     if rng.chance(1, 12):
@@ -582,6 +679,34 @@ def gen_case(rng: Rng, max_routers: int = 3) -> dict:
             and not notes.get("gw_off_subnet") and not notes.get("recable_other")}
 
 
+def add_loopback_ops(case: dict, rng: Rng) -> dict:
+    """Loopback family (ICMP.ping's early case): appended to the ops of a generated case.  Up to two hosts and one router / firewall ping
+    127.0.0.1 in whatever state the run left them, then with every cabled interface enabled (another 127.x.y.z as well), then with EVERY
+    interface of the node disabled (the answer must be False: `any(nic.enabled …)`), and the interfaces come back up.  Nothing may be sent."""
+    nodes = case["nodes"]
+    hosts = [n for n, nd in enumerate(nodes) if nd["kind"] == "host"]
+    routers = [n for n, nd in enumerate(nodes) if nd["kind"] in ("router", "firewall")]
+    chosen = rng.shuffle(hosts)[:2] + rng.shuffle(routers)[:1]
+    ops = []
+    for n in chosen:
+        nd = nodes[n]
+        if nd["kind"] == "host":
+            ifcs = list(range(1 + len(nd.get("extra", []))))
+        else:
+            ifcs = [i for i, prt in enumerate(nd["ports"]) if prt]
+        other = f"127.{rng.below(256)}.{rng.below(256)}.{rng.range(1, 254)}"
+        ops.append({"op": "ping", "src": n, "dst": "127.0.0.1", "count": rng.choice([1, 4])})
+        ops += [{"op": "enable", "node": n, "ifc": i} for i in ifcs]
+        ops.append({"op": "ping", "src": n, "dst": "127.0.0.1", "count": rng.choice([1, 2])})
+        ops.append({"op": "ping", "src": n, "dst": other, "count": rng.choice([1, 4])})
+        ops += [{"op": "disable", "node": n, "ifc": i} for i in ifcs]
+        ops.append({"op": "ping", "src": n, "dst": "127.0.0.1", "count": rng.choice([1, 4])})
+        ops.append({"op": "ping", "src": n, "dst": other, "count": 1})
+        ops += [{"op": "enable", "node": n, "ifc": i} for i in ifcs]
+    notes = dict(case.get("notes", {}), loopback=len(chosen))
+    return dict(case, ops=list(case["ops"]) + ops, notes=notes)
+
+
 # ------------------------------------------------------------------------------------------ model side
 def mac_of(case: dict) -> Dict[Tuple[int, int], int]:
     """model MAC numbers: 1.. in (node, interface) order."""
@@ -644,6 +769,9 @@ def model_lines(case: dict) -> Tuple[List[str], List[int]]:
             lines.append(f"service {op['src']} {op['dst']}")
         elif op["op"] in ("enable", "disable"):
             lines.append(f"{op['op']} {op['node']} {op['ifc']}")
+        elif op["op"] == "inject":
+            lines.append(f"inject {op['node']} {op['ifc']} {op['ttl']} {macs[(op['from'], 0)]} {macs[(op['node'], op['ifc'])]} "
+                         f"{case['nodes'][op['from']]['ip']} {op['dst']}")
         elif op["op"] == "power":
             lines.append(f"power {op['node']} {op['on']}")
         elif op["op"] == "recable":
@@ -936,6 +1064,17 @@ def run_impl(case: dict) -> Tuple[List[str], List[dict]]:
                     ifaces[op["node"]][op["ifc"]].enable()
                 elif op["op"] == "disable":
                     ifaces[op["node"]][op["ifc"]].disable()
+                elif op["op"] == "inject":
+                    from primaite.simulator.network.protocols.icmp import ICMPPacket, ICMPType
+                    from primaite.simulator.network.transmission.data_link_layer import EthernetHeader, Frame
+                    from primaite.simulator.network.transmission.network_layer import IPPacket
+                    from primaite.utils.validation.ip_protocol import PROTOCOL_LOOKUP
+                    port = ifaces[op["node"]][op["ifc"]]
+                    fr = Frame(ethernet=EthernetHeader(src_mac_addr=ifaces[op["from"]][0].mac_address, dst_mac_addr=port.mac_address),
+                               ip=IPPacket(src_ip_address=case["nodes"][op["from"]]["ip"], dst_ip_address=op["dst"],
+                                           protocol=PROTOCOL_LOOKUP["ICMP"], ttl=op["ttl"]),
+                               icmp=ICMPPacket(icmp_type=ICMPType.ECHO_REQUEST, identifier=9000 + len(records), sequence=0))
+                    port.receive_frame(fr)
                 elif op["op"] == "recable":
                     nic = ifaces[op["node"]][op["ifc"]]
                     net.remove_link(nic._connected_link)
@@ -954,7 +1093,9 @@ def run_impl(case: dict) -> Tuple[List[str], List[dict]]:
                     res = "OOF"
                     dead = True
                 else:
-                    raise
+                    # any other exception out of the code under test is an ANSWER the model does not give (a violation with a replay),
+                    # not a crash of the check
+                    res = "EXC:" + type(e).__name__
             raw = rec.take()
             toks = []
             for e in raw:
@@ -966,7 +1107,9 @@ def run_impl(case: dict) -> Tuple[List[str], List[dict]]:
                     toks.append(f"sw:{e[1]}:{id(e[2])}")
             if res == "OOF":
                 answers.append("OOF")
-            elif op["op"] in ("ping", "enable", "service", "recable") or (op["op"] == "power" and op["on"]):
+            elif res.startswith("EXC:"):
+                answers.append(res)
+            elif op["op"] in ("ping", "enable", "service", "recable", "inject") or (op["op"] == "power" and op["on"]):
                 answers.append(" ".join([res] + canon_events(toks)))
             else:
                 answers.append("ok")
